@@ -47,6 +47,9 @@ Inductive exch :=
 (* uploads that break off: the connection / stream accepted only [accepted] bytes of the body
    (h1: Content-Length body, the peer closed the connection, no response; h3: the peer answered
    and stopped reading) *)
+(* h2: a request without body whose response header block is never completed / is rejected; the
+   fields that were decoded before the fault *)
+| X2p (fields : list field) (decoded : list field)
 | X1a (header_block body : bytes) (accepted : nat)
 | X3a (fields : list field) (body : bytes) (accepted : nat)
       (resp_fields : list field) (reads : list (bytes * rstat)).
@@ -88,6 +91,9 @@ Definition exch_log (ds : list dumper) (x : exch) : bool * log :=
       (* every response HEADERS block - informational ones too - is dumped as field lines + CRLF *)
       (Bool.eqb (sr_failed sr) (aborted && negb fin),
        l1 ++ flat_map (h23_resp_header_log ds) interim ++ l2)
+  | X2p fs decoded =>
+      let '(sr, l1) := h2_send ds no_enc id_frame id_frame [] app_w [] (mkH23Req fs None false false) in
+      (negb (sr_failed sr), l1 ++ h2_partial_block_log ds decoded)
   | X1a hb body n =>
       let '(sr, l1) := h1_send ds (cut_w (length hb + n)) [] (mkH1Req [hb] (Some [body]) false false) in
       (Bool.eqb (sr_failed sr) (Nat.ltb n (length body)), l1)
@@ -137,6 +143,10 @@ Inductive c13_case :=
 (* a streamed (chunked) HTTP/1.1 upload whose producer yields the next part only after the origin
    has received the previous one: [progress] = no part had to wait for more than the generous
    bound, i.e. every chunk was flushed on its own *)
+(* the request-level dump setters in the order the caller made them (request buffer = writer 2)
+   and the options the real dumper turned out to work with (None: nothing was dumped at request
+   level because no dumper existed) *)
+| ReqOpsCase (ops : list rop) (effective : option options)
 | FlushCase (client request : option options) (header_block : bytes) (chunks : list bytes)
             (progress : bool).
 
@@ -146,11 +156,25 @@ Definition rl_obs_eqb (r : rl) (o : bytes * bool * rerr) : bool :=
   let '(l, p, e) := o in
   bytes_eqb (rl_line r) l && Bool.eqb (rl_prefix r) p && rerr_eqb (rl_err r) e.
 
+Definition ow_eqb (a b : option writer) : bool :=
+  match a, b with Some x, Some y => N.eqb x y | None, None => true | _, _ => false end.
+Definition options_eqb (a b : options) : bool :=
+  ow_eqb (o_out a) (o_out b) && ow_eqb (o_req a) (o_req b) && ow_eqb (o_resp a) (o_resp b) &&
+  ow_eqb (o_reqh a) (o_reqh b) && ow_eqb (o_reqb a) (o_reqb b) && ow_eqb (o_resph a) (o_resph b) &&
+  ow_eqb (o_respb a) (o_respb b) && Bool.eqb (on_reqh a) (on_reqh b) && Bool.eqb (on_reqb a) (on_reqb b) &&
+  Bool.eqb (on_resph a) (on_resph b) && Bool.eqb (on_respb a) (on_respb b) && Bool.eqb (o_async a) (o_async b).
+
 Definition c13_check (c : c13_case) : bool :=
   match c with
   | LineCase dumping n input max obs dumped =>
       let rs := read_lines (read_line dumping) n max input in
       list_eqb rl_obs_eqb rs obs && bytes_eqb (concat (map rl_dumped rs)) dumped
+  | ReqOpsCase ops effective =>
+      match run_rops w_reqbuf ops, effective with
+      | Some a, Some b => options_eqb a (request_set_options w_reqbuf b)
+      | None, None => true
+      | _, _ => false
+      end
   | FlushCase client request hb chunks progress =>
       let ds := get_dumpers (option_map (client_set_options None) client)
                             (option_map (request_set_options w_reqbuf) request) in
